@@ -161,6 +161,21 @@ CLAIMED['C05'] = dict(
    technique="Coq proof (bisimulation invariant by induction over steps, sweeps and resume segments; finite table check lifted by a frame theorem) + vm_compute correspondence",
    ref="DESIGN.md section 3, C05")
 
+CLAIMED['C10'] = dict(
+   text="Theorems about the Gallina model of NestedTransdimensional._jump (value-abstract: new index, chosen components, births and in-model "
+        "proposals enter as an oracle): from every well-formed state (index = number of active components within the index bounds, inactive "
+        "components NaN in every parameter, active ones finite) the proposed point with its '_state' is well formed, for every index jump "
+        "within bounds, every choice of |dk| distinct components of the right kind, every finite birth/in-model draw (counting lemma for "
+        "flips, by induction over the chosen components); hence every history of accepted/rejected steps, and every sweep exchanging whole "
+        "(position, active set) pairs, keeps all levels well formed; the active set of a well-formed state IS the NaN pattern, so "
+        "re-deriving it on start/clear/resume changes nothing. Tie: real _jump calls with the oracle captured on live instances and replayed "
+        "by vm_compute; transdimensional MH/PT samplers replayed on the chain machine (active sets through steps, sweeps, clear, set_state); "
+        "direct well-formedness checks of every level after every iteration across clear and three kinds of state load.",
+   note=MACH_NOTE + " That numpy's choice(replace=False) returns distinct elements of its first argument, and that births/in-model jumps are finite, "
+        "are premises (checked on every captured call).",
+   technique="Coq proof (counting lemma by induction over flipped components, invariant by induction over step histories) + vm_compute correspondence",
+   ref="DESIGN.md section 3, C10")
+
 PENDING_REASON = "not yet claimed: model/theorems for this property are still being built (see DESIGN.md section 3); nothing is asserted about it"
 
 def main():
